@@ -135,6 +135,7 @@ REG["C04"] = {
 
 REG["C11"] = {
     "thorough_extra": ["replay"],
+    "quick_extra": ["replay"],
     "units": ["escaping"],
     "scope": "UNICODE mode: escaped_expectation_unicode(line) contains no C* (control/format/unassigned/private/surrogate) code point and is either the line itself or "
              "`t (escaped)` with decode(t) == content (escaped_printable_unicode proved equal to enc_u; round-trip lemma per char). "
